@@ -517,9 +517,9 @@ PLANS = {
     "C09": simple("C09", "exploration", "c09", ["rel", "ovf", "nounroll"]),
     "C10": simple("C10", "exploration", "c10", ["rel", "ovf", "nounroll"]),
     "C11": simple("C11", "model_checking", "c11", ["rel", "ovf"], ["rel", "ovf", "dev"]),
-    "C12": simple("C12", "exploration", "c12", ["rel", "nosimd"]),
-    "C13": simple("C13", "exploration", "c13", ["rel", "nosimd"]),
-    "C14": simple("C14", "exploration", "c14", ["rel", "ovf", "nosimd"], ["rel", "ovf", "nosimd", "nosimd-ovf"]),
+    "C12": simple("C12", "exploration", "c12", ["rel", "ovf", "nosimd", "nosimd-ovf"]),
+    "C13": simple("C13", "exploration", "c13", ["rel", "ovf", "nosimd", "nosimd-ovf"]),
+    "C14": simple("C14", "exploration", "c14", ["rel", "ovf", "nosimd", "nosimd-ovf"]),
     "C15": simple("C15", "model_checking", "c15", ["rel", "ovf"], ["rel", "ovf", "nosimd"]),
     "C16": simple("C16", "exploration", "c16", ["rel", "nosimd"]),
     "C17": simple("C17", "model_checking", "c17", ["rel", "ovf"]),
@@ -560,7 +560,7 @@ def main(argv):
         if argv[0] == "setup":
             assert_wiring()
             from concurrent.futures import ThreadPoolExecutor
-            for c in ["rel", "ovf", "nosimd", "nounroll"]:
+            for c in ["rel", "ovf", "nosimd", "nosimd-ovf", "nounroll"]:
                 build(c)
             with ThreadPoolExecutor(max_workers=4) as ex:
                 for n, (b, err) in zip(PROBE_CONFIGS, ex.map(lambda n: build_probe(n, PROBE_CONFIGS[n][0], PROBE_CONFIGS[n][1]), list(PROBE_CONFIGS))):
